@@ -427,3 +427,70 @@ fn native_mdl_write_parse_identity() {
     }
     println!("NATIVE native_mdl_write_parse_identity cases={cases}");
 }
+
+//@unit props=C06 label=B tier=quick native=1 fn=model::MDL::from_existing bound="by execution: the resource model written with a two-stream layout for mesh 5 whose extra slots are then re-declared, in the file bytes, as the (usage, type) pairs only the reader knows (BlendIndices UnsignedShort4, BlendWeights UnsignedShort4, UV Half2, UV ByteFloat4, Tangent ByteFloat4) and filled with distinct stored values for each of the 110 vertices"
+//@desc the reader finds each attribute at LOD vertex offset + stream offset + element offset + stride*k and decodes it by its (usage, type) pair: 16-bit blend indices narrowed to bytes in order, 16-bit blend weights as numbers in order, Half2 UVs into uv0 only, byte UVs as x/255 into uv0 and uv1, tangents ignored; the other attributes of the same vertices are unaffected
+#[test]
+fn native_mdl_reader_only_arms() {
+    use VertexType::*; use VertexUsage::*;
+    let bytes = native_resource("c0201e0038_top_zeroed.mdl");
+    let mut cases = 0u64;
+    // (target type, target usage, placeholder type, placeholder usage, size)
+    let variants: Vec<Vec<(VertexType, VertexUsage, VertexType, VertexUsage, u8)>> = vec![
+        vec![(UnsignedShort4, BlendIndices, Half4, Normal, 8), (UnsignedShort4, BlendWeights, Half4, Normal, 8), (Half2, UV, ByteFloat4, Color, 4), (ByteFloat4, Tangent, ByteFloat4, Color, 4)],
+        vec![(ByteFloat4, UV, ByteFloat4, Color, 4), (UnsignedShort4, BlendIndices, Half4, Normal, 8)],
+    ];
+    for (vi, slots) in variants.iter().enumerate() {
+        let (l, p) = (2usize, 1usize);
+        let mut mdl = MDL::from_existing(&bytes).unwrap();
+        let j = mdl.lods[l].parts[p].mesh_index as usize;
+        // stream 0: position; stream 1: the slots, then a Single3 normal
+        let mut elements = vec![nmd_el(0, 0, Single3, Position)];
+        let mut at = 0u8; let mut slot_offsets = vec![];
+        for (_, _, pt, pu, size) in slots.iter() { elements.push(nmd_el(1, at, *pt, *pu)); slot_offsets.push(at); at += size; }
+        let normal_at = at; elements.push(nmd_el(1, at, Single3, Normal)); at += 12;
+        mdl.model_data.header.vertex_declarations[j].elements = elements.clone();
+        mdl.model_data.meshes[j].vertex_buffer_strides = [12, at, 0];
+        let n = mdl.lods[l].parts[p].vertices.len();
+        let pos_normal: Vec<Vertex> = (0..n).map(|k| nmd_vertex(&[nmd_el(0, 0, Single3, Position), nmd_el(1, normal_at, Single3, Normal)], k, 4242 + vi as u32)).collect();
+        mdl.lods[l].parts[p].vertices = pos_normal.clone();
+        mdl.update_headers();
+        let mut out = mdl.write_to_buffer().expect("write");
+        let w = MDL::from_existing(&out).expect("the written model parses");
+        // re-declare the slots and store raw values in them
+        let base = w.model_data.lods[l].vertex_data_offset as usize + w.model_data.meshes[j].vertex_buffer_offsets[1] as usize;
+        let stride = w.model_data.meshes[j].vertex_buffer_strides[1] as usize;
+        let raw = |k: usize, si: usize, b: usize| -> u8 { ((k * 13 + si * 41 + b * 7 + vi) % 251) as u8 | if b % 2 == 1 { 0 } else { 1 } };
+        for (si, (tt, tu, _, _, size)) in slots.iter().enumerate() {
+            let e = 0x44 + j * 136 + 8 * (1 + si);
+            assert_eq!(out[e], 1, "the slot's element record sits where the declaration block puts it"); assert_eq!(out[e + 1], slot_offsets[si]);
+            out[e + 2] = *tt as u8; out[e + 3] = *tu as u8;
+            for k in 0..n { for b in 0..*size as usize {
+                // keep halves finite: clear the top exponent bit of every second byte
+                let v = if *tt == Half2 && b % 2 == 1 { raw(k, si, b) & 0xBF } else { raw(k, si, b) };
+                out[base + stride * k + slot_offsets[si] as usize + b] = v;
+            } }
+        }
+        let back = MDL::from_existing(&out).expect("the re-declared model parses");
+        let part = &back.lods[l].parts[p];
+        assert_eq!(part.vertices.len(), n);
+        for k in 0..n {
+            let v = &part.vertices[k];
+            assert!(v.position == pos_normal[k].position && v.normal == pos_normal[k].normal, "layout {vi} vertex {k}: position and normal are unaffected");
+            for (si, (tt, tu, _, _, _)) in slots.iter().enumerate() {
+                let by = |b: usize| { let x = raw(k, si, b); if *tt == Half2 && b % 2 == 1 { x & 0xBF } else { x } };
+                let short = |i: usize| u16::from_le_bytes([by(2 * i), by(2 * i + 1)]);
+                match (tu, tt) {
+                    (BlendIndices, UnsignedShort4) => assert_eq!(v.bone_id, [short(0) as u8, short(1) as u8, short(2) as u8, short(3) as u8], "layout {vi} vertex {k}: 16-bit blend indices narrowed in order"),
+                    (BlendWeights, UnsignedShort4) => assert_eq!(v.bone_weight, [short(0) as f32, short(1) as f32, short(2) as f32, short(3) as f32], "layout {vi} vertex {k}: 16-bit blend weights in order"),
+                    (UV, Half2) => { assert_eq!(v.uv0, [half::f16::from_bits(short(0)).to_f32(), half::f16::from_bits(short(1)).to_f32()], "layout {vi} vertex {k}: Half2 UV"); assert_eq!(v.uv1, [0.0, 0.0], "Half2 UVs leave uv1 alone"); }
+                    (UV, ByteFloat4) => { assert_eq!((v.uv0, v.uv1), ([by(0) as f32 / 255.0, by(1) as f32 / 255.0], [by(2) as f32 / 255.0, by(3) as f32 / 255.0]), "layout {vi} vertex {k}: byte UVs"); }
+                    (Tangent, ByteFloat4) => {}
+                    other => panic!("unexpected slot {other:?}"),
+                }
+            }
+            cases += 1;
+        }
+    }
+    println!("NATIVE native_mdl_reader_only_arms cases={cases}");
+}
